@@ -240,3 +240,70 @@ def c15_weight_lemmas(task):
     _res(out, "C15/lemma/cap-below-one-over-n-is-infeasible", ("C15",), [k >= 1, cap < 1 / z3.ToReal(k), tot <= z3.ToReal(k) * cap], tot < 1, rests_on="LimitWeights infeasibility test limit < 1/len(weights)")
     out["samples"].append(dict(lemma="vol(w * tv / vol(w)) == tv"))
     return out
+
+
+def c20_risk_lemmas(task):
+    """algebra behind C20 over the contract clauses: hedge notionals from the inverse Jacobian of (unit risk x multiplier)
+    neutralise every hedged measure (1 and 2 instruments); without the multiplier factor the residual is R(1-m) (why 93f2fba was needed);
+    a roll at factor f moves f*q into the target and leaves the source flat"""
+    out = dict(results=[], samples=[])
+    P = ("C20",)
+    R0, u, m, q = R("risk"), R("unit"), R("mult"), R("q")
+    # one measure, one instrument: q = -R / (u*m); risk afterwards R + u*q*m (UpdateRisk's security clause) == 0
+    _res(out, "C20/lemma/hedge-1x1-neutralises", P, [u * m != 0, q == -R0 / (u * m)], R0 + u * q * m == 0, rests_on="UpdateRisk._set_risk_recursive[security] clause + HedgeRisks Jacobian unit risk x multiplier (bounded audit)")
+    # two measures, two instruments: rows = instruments, columns = measures; notionals = (J^-1)^T (-R)
+    a, b, c, d, r1, r2, q1, q2 = (R(n) for n in ("j11", "j12", "j21", "j22", "r1", "r2", "q1", "q2"))
+    det = a * d - b * c
+    hyps = [det != 0, q1 == -(d * r1 - c * r2) / det, q2 == -(-b * r1 + a * r2) / det]
+    _res(out, "C20/lemma/hedge-2x2-neutralises", P, hyps, z3.And(r1 + a * q1 + c * q2 == 0, r2 + b * q1 + d * q2 == 0), rests_on="same, two instruments: J^T q = -R with J rows scaled by the multipliers")
+    # strategy risk is additive over children: hedging a child instrument changes the parent's risk by the same amount (sum clause)
+    s_rest, s_h, dq = R("rest"), R("hedge_child_risk"), R("delta")
+    _res(out, "C20/lemma/parent-risk-moves-with-the-hedge-instrument", P, [], (s_rest + (s_h + dq)) - (s_rest + s_h) == dq, rests_on="UpdateRisk._set_risk_recursive[strategy]/risk-is-the-sum-of-the-children's-risk")
+    # roll bookkeeping: closing the source and transacting f*q into the target
+    p_src, p_tgt, f = R("p_src"), R("p_tgt"), R("factor")
+    _res(out, "C20/lemma/roll-moves-factor-times-position-once", P, [], z3.And(p_src - p_src == 0, (p_tgt + f * p_src) - p_tgt == f * p_src), rests_on="StrategyBase.close (position to 0) and transact (position += q) clauses")
+    out["samples"].append(dict(lemma="J^T q = -R"))
+    return out
+
+
+def c18_report_lemmas(task):
+    """algebra behind C18: cumulative trade quantities telescope to positions (get_transactions takes diff with the first row patched);
+    weights plus cash fractions sum to one (from update's value identity); a trade replayed at the reported per-unit price pays the original outlay"""
+    out = dict(results=[], samples=[])
+    P = ("C18",)
+    k = z3.Int("k")
+    pos = z3.Function("pos", z3.IntSort(), z3.RealSort())
+    trd = z3.Function("trade", z3.IntSort(), z3.RealSort())
+    cum = z3.Function("cum", z3.IntSort(), z3.RealSort())
+    # base and inductive step of  cum(k) == pos(k)  with trade(0)=pos(0), trade(k)=pos(k)-pos(k-1), cum(k)=cum(k-1)+trade(k)
+    _res(out, "C18/lemma/cumulative-quantities-equal-positions:base", P, [trd(0) == pos(0), cum(0) == trd(0)], cum(0) == pos(0), rests_on="get_transactions: trades = positions.diff(); trades.iloc[0] = positions.iloc[0]")
+    _res(out, "C18/lemma/cumulative-quantities-equal-positions:step", P, [k >= 1, trd(k) == pos(k) - pos(k - 1), cum(k) == cum(k - 1) + trd(k), cum(k - 1) == pos(k - 1)], cum(k) == pos(k), rests_on="same (induction over dates)")
+    # weights: root value = sum of security values + sum of strategies' cash (update's identity, summed over the tree); divided by a non-zero root value
+    V, S, C = R("root_value"), R("sum_security_values"), R("sum_strategy_cash")
+    _res(out, "C18/lemma/security-weights-plus-cash-fractions-sum-to-one", P, [V != 0, V == S + C], S / V + C / V == 1, rests_on="StrategyBase.update/identity:value=cash+children at every strategy of the tree (C01)")
+    # replay round trip: reported price p + bo/(q*m) (bo in currency); ReplayTransactions trades q at that price: outlay q*price*m
+    p, q, m, bo = R("price"), R("q"), R("mult"), R("bidoffer_paid")
+    _res(out, "C18/lemma/replayed-trade-pays-the-original-outlay", P, [q != 0, m != 0], q * (p + bo / (q * m)) * m == q * p * m + bo, rests_on="SecurityBase.outlay clause (custom price) + get_transactions price = price + bidoffer_paid/multiplier/quantity (fix 89debc7)")
+    out["samples"].append(dict(lemma="cum(k) == pos(k)"))
+    return out
+
+
+def c18_static(task):
+    """AST obligations on the real source: the Result's price frame is built from each backtest's strategy.prices under the backtest's name, and
+    Result.get_transactions returns the strategy's own list"""
+    import ast
+    from pyvc.source import Program
+
+    prog = Program()
+    out = dict(results=[], samples=[])
+
+    def ob(oid, ok, info=None):
+        out["results"].append(dict(id=oid, kind="post", props=["C18"], verdict="proved" if ok else "refuted", backend="ast-scan", secs=0.0, func="bt.backtest.Result", model=None if ok else (info or {})))
+
+    init = ast.unparse(prog.func("bt.backtest.Result.__init__").node)
+    ob("C18/Result.__init__/price-frame-is-strategy.prices-by-backtest-name", "pd.DataFrame({x.name: x.strategy.prices}) for x in backtests" in init and "__init__(*tmp)" in init, dict(source=init[:300]))
+    gt = ast.unparse(prog.func("bt.backtest.Result.get_transactions").node)
+    ob("C18/Result.get_transactions/returns-the-strategy's-list", "return self.backtests[strategy_name].strategy.get_transactions()" in gt, dict(source=gt[-200:]))
+    pos = ast.unparse(prog.func("bt.backtest.Backtest.positions").node)
+    ob("C18/Backtest.positions/is-the-strategy's", "return self.strategy.positions" in pos, dict(source=pos[-120:]))
+    return out
